@@ -3,7 +3,7 @@ import ast
 import re
 
 from .. import rx
-from ..astutil import Guards, enum_paths, src, is_name, is_attr, yields_in, atoms, fact_in
+from ..astutil import Guards, enum_paths, src, is_name, is_attr, yields_in, atoms, fact_in, lin
 from ..fold import TT, Marker, NotConst
 from ..model import AnalysisError, own_nodes
 from ..tables import get_tables
@@ -91,7 +91,7 @@ def shortest_match(pattern):
     return 0
 
 
-def lin(expr):
+def _lin_old(expr):
     """linear form of an integer expression: {term_src: coeff, '': const}"""
     if isinstance(expr, ast.BinOp) and isinstance(expr.op, (ast.Add, ast.Sub)):
         a, b = lin(expr.left), lin(expr.right)
